@@ -261,3 +261,88 @@ def pointer_roots(m, f, op, depth=0, seen=None):
             return set([('own', d.split('(')[0])])
         return set([('other', 'result of ' + d.split('(')[0][:60])])
     return set([('other', i.op)])
+
+
+COUNTED_ACCESSOR_RE = re.compile(r'^(ST::string::(c_str|data)\(|ST::buffer<[^>]*>::(data|c_str)\(|'
+                                 r'std::(__cxx11::)?basic_string<.*>::(c_str|data)\(\)|std::basic_string_view<.*>::data\(\))')
+LENGTH_RE = re.compile(r'^(std::char_traits<[\w ]+>::length\(|ST::buffer<[^>]*>::strlen\()')
+LENGTH_C = ('strlen', 'wcslen')
+
+
+def counted_roots(m, f, op, depth=0, seen=None):
+    """Like pointer_roots, with the accessors of every counted text type (ST::string, ST::buffer, std::basic_string,
+    std::basic_string_view) as 'own' roots."""
+    if seen is None:
+        seen = set()
+    if op[0] != 'v':
+        return set([('const',)]) if op[0] in ('n', 'g', 'ce', 'z', 'u') else set([('other', op[0])])
+    if op[1] in seen or depth > 12:
+        return set()
+    seen.add(op[1])
+    if op[1] < f.nargs:
+        return set([('param', op[1])])
+    i = f.inst(op[1])
+    if i is None:
+        return set([('other', 'unknown value')])
+    if i.op in ('bitcast', 'addrspacecast'):
+        return counted_roots(m, f, i.a[0], depth + 1, seen)
+    if i.op == 'getelementptr':
+        return counted_roots(m, f, i.d['base'], depth + 1, seen)
+    if i.op == 'phi':
+        out = set()
+        for x in i.d.get('inc', []):
+            out |= counted_roots(m, f, x[0], depth + 1, seen)
+        return out
+    if i.op == 'select':
+        return counted_roots(m, f, i.a[1], depth + 1, seen) | counted_roots(m, f, i.a[2], depth + 1, seen)
+    if i.op in ('call', 'invoke') and i.callee:
+        d = m.dem(i.callee)
+        if COUNTED_ACCESSOR_RE.match(d):
+            return set([('own', d.split('(')[0])])
+        return set([('other', 'result of ' + d.split('(')[0][:60])])
+    return set([('other', i.op)])
+
+
+def cstring_params(m, F):
+    """{function name: set of IR parameter indices that the function (or a function it forwards the parameter to) measures as a
+    NUL-terminated string}: the parameter reaches char_traits<T>::length / strlen.  Least fixpoint over the library's call graph."""
+    res = {}
+    changed = True
+    rounds = 0
+    while changed and rounds < 8:
+        changed = False
+        rounds += 1
+        for name in F.lib:
+            f = m.func(name)
+            for (i, ts, k) in F.calls[name]:
+                for t in ts:
+                    d = m.dem(t)
+                    targets = None
+                    if t in LENGTH_C or LENGTH_RE.match(d):
+                        targets = [0] if not LENGTH_RE.match(d) or 'ST::buffer' not in d else [0]
+                    elif t in res:
+                        targets = sorted(res[t])
+                    if not targets:
+                        continue
+                    for ai in targets:
+                        if ai >= len(i.a):
+                            continue
+                        if t in res and not measured_at_call(m, t, ai, i):
+                            continue
+                        for r in pointer_roots(m, f, i.a[ai]):
+                            if r[0] == 'param' and r[1] not in res.get(name, set()):
+                                res.setdefault(name, set()).add(r[1])
+                                changed = True
+    return res
+
+
+def measured_at_call(m, callee, ai, call):
+    """The callee measures parameter ai as a C string at this call: the parameter stands alone, or the count that accompanies it is
+    passed as the all-ones "measure it yourself" constant (ST_AUTO_SIZE)."""
+    g = m.func(callee) if m.has(callee) else None
+    if g is None:
+        return True
+    if ai + 1 < len(g.params) and g.params[ai + 1]['ty'] == 'i64':
+        nxt = call.a[ai + 1] if ai + 1 < len(call.a) else None
+        return isinstance(nxt, list) and len(nxt) >= 2 and nxt[0] == 'i' and nxt[1] == (1 << 64) - 1
+    return True
